@@ -224,6 +224,11 @@ impl Memory {
     ///
     /// This takes care of the underlying memory sections automatically.
     pub fn set_memory(&mut self, address: u64, data: Vec<u8>, permissions: MemoryPermissions) {
+        // Writing zero bytes changes nothing
+        if data.is_empty() {
+            return;
+        }
+
         // All overlapping memory sections need to be adjusted
         // Start by collecting addresses and lengths
         let als = self
